@@ -441,11 +441,15 @@ class Harness:
     def registered_now(self) -> List[Any]:
         return [s for s in self.spies if s in self.zc.record_manager.listeners]
 
-    def run(self, steps: List[Tuple], n_listeners: int = 1) -> None:
+    def run(self, steps: List[Tuple], n_listeners: int = 1, loop_mode: bool = False) -> None:
+        """loop_mode=False: the record manager and the engine purge are called directly under a manually set clock.
+        loop_mode=True: datagrams go through AsyncListener.datagram_received and virtual time is advanced by running the
+        event loop, so the engine's own 10 s timer performs the purges."""
         from zeroconf._protocol.incoming import DNSIncoming
         res = self.res
         res.evaluations += 1
-        self.replay = {"history": history_to_json(steps), "n_listeners": n_listeners}
+        self.replay = {"history": history_to_json(steps), "n_listeners": n_listeners, "loop_mode": loop_mode}
+        self.loop_mode = loop_mode
         v5 = self.viol_for("C05")
         v6 = self.viol_for("C06")
         model = CacheModel()
@@ -461,7 +465,8 @@ class Harness:
             engine = zc.engine
             rm = zc.record_manager
             t0 = sim.clock.ms()
-            next_purge = t0 + 10000.0 - (sim.clock.ms() - t0)  # the engine armed its timer at setup time
+            t_ms = int(round(t0))          # the harness keeps time in whole milliseconds so that purge boundaries are exact
+            next_purge = t_ms + 10000      # the engine armed its timer at setup time
             # the timer was armed in _async_setup, a few loop iterations before now, all at the same virtual instant
             for _ in range(n_listeners):
                 s = self.new_spy("plain")
@@ -471,12 +476,19 @@ class Harness:
                 for si, step in enumerate(steps):
                     where = "step %d %s" % (si, step[0])
                     if step[0] == "adv":
-                        target = sim.clock.ms() + step[1]
+                        target = t_ms + int(step[1])
+                        t_ms = target
                         while next_purge <= target:
-                            sim.clock.t = next_purge / 1000.0
-                            self.do_purge(sim, model, v5, v6, purged_once, where)
-                            next_purge += 10000.0
-                        sim.clock.t = target / 1000.0
+                            if loop_mode:
+                                self.do_purge(sim, model, v5, v6, purged_once, where, at=float(next_purge))
+                            else:
+                                sim.clock.t = next_purge / 1000.0
+                                self.do_purge(sim, model, v5, v6, purged_once, where)
+                            next_purge += 10000
+                        if loop_mode:
+                            sim.run(sim.sleep_until_ms(target))
+                        else:
+                            sim.clock.t = target / 1000.0
                         res.cls("adv", bucket_ms(step[1]))
                     elif step[0] == "listener":
                         self.listener_step(step[1])
@@ -491,10 +503,13 @@ class Harness:
                             s.calls.clear()
                         self.removed_during.clear()
                         self.added_during.clear()
-                        msg = DNSIncoming(data, ("10.0.0.77", 5353), None, now)
                         pre_objs = {lib_identity(r): r for lname in set(n.lower() for n in TYPE_NAME + INST + HOST)
                                     for r in cache.entries_with_name(lname)}
-                        rm.async_updates_from_response(msg)
+                        if loop_mode:
+                            sim.net.inject_now(sim.net.hosts[0], data, ("10.0.0.77", 5353))
+                        else:
+                            msg = DNSIncoming(data, ("10.0.0.77", 5353), None, now)
+                            rm.async_updates_from_response(msg)
                         self.check_listener_contract(at_start, updates, pre, mid, final, pre_objs, now, recs, v6, where)
                         self.classify_dgram(recs, pre, now)
                     # after every step: all lookup paths vs the model (C05), final state (C06)
@@ -534,15 +549,19 @@ class Harness:
                 rm.async_remove_listener(reg[0])
         self.res.cls("listener", what)
 
-    def do_purge(self, sim: Any, model: CacheModel, v5, v6, purged_once: Dict[int, int], where: str) -> None:
-        now = sim.clock.ms()
+    def do_purge(self, sim: Any, model: CacheModel, v5, v6, purged_once: Dict[int, int], where: str, at: Optional[float] = None) -> None:
+        now = sim.clock.ms() if at is None else at
         for s in self.spies:
             s.calls.clear()
         want_gone = sorted(model.purge(now))
         at_start = list(self.registered_now())
         self.removed_during.clear()
         self.added_during.clear()
-        self.zc.engine._async_cache_cleanup()
+        if at is None:
+            self.zc.engine._async_cache_cleanup()
+        else:
+            # let the engine's own timer fire at `at` (our wake-up is 1 microsecond later so the order is defined)
+            sim.run(sim.sleep_until_ms(at + 0.001))
         self.res.mon("c05.purge")
         for s in at_start:
             if id(s) in self.removed_during:
